@@ -32,10 +32,20 @@ Definition spec_location (sp : spec) : option loc :=
   | SEnforceSequence _ l | SEnforceChoice _ l => Some l
   | _ => None
   end.
+(* AvoidChanges.shifted: the location AND the indices move (the target and the allowance stay) *)
+Definition shift_avoid_changes (l : loc) (idx : option (list Z)) (tg : dna) (me : Z) (d : Z) : spec :=
+  SAvoidChanges (loc_add l d) (option_map (map (fun i => i + d)) idx) tg me.
 Definition circularized (L : Z) (sp : spec) : list spec :=
-  match spec_location sp with
-  | Some l => map (with_loc sp) (circularized_locs L l)
-  | None => [sp]
+  match sp with
+  | SAvoidChanges l idx tg me =>
+      (* position-wise specification: never spread over the three copies, one shifted version per copy
+         (whole-sequence location included) *)
+      map (shift_avoid_changes l idx tg me) [0; L; 2 * L]
+  | _ =>
+    match spec_location sp with
+    | Some l => map (with_loc sp) (circularized_locs L l)
+    | None => [sp]
+    end
   end.
 
 Definition central (L : Z) : loc := mkLoc L (2 * L) 0.
